@@ -125,9 +125,7 @@ func runLockSvc(traceRoot string, seq int, nClients int, rng *rand.Rand) (lines 
 	recMode := []string{"file", "mem"}[seq%2]
 
 	envMu.Lock()
-	if recMode == "file" {
-		os.Setenv("PGO_TRACE_DIR", caseDir)
-	}
+	os.Setenv("PGO_TRACE_DIR", caseDir)
 	for i := 1; i <= n; i++ {
 		self := tla.MakeNumber(int32(i - 1))
 		arch := locksvc.AClient
@@ -272,6 +270,7 @@ func runLockSvc(traceRoot string, seq int, nClients int, rng *rand.Rand) (lines 
 			continue
 		}
 		steps++
+		label := c.parked
 		c.k++
 		c.commits, c.aborts = 0, 0
 		calls[c.idx-1] = nil
@@ -365,7 +364,7 @@ func runLockSvc(traceRoot string, seq int, nClients int, rng *rand.Rand) (lines 
 				pending[kk.dst]++
 			}
 		}
-		lines = append(lines, rec{"e": "att", "c": c.idx, "k": c.k, "sec": 0, "label": c.parked, "ab": aborted, "ops": ops, "logs": logs})
+		lines = append(lines, rec{"e": "att", "c": c.idx, "k": c.k, "sec": 0, "label": label, "ab": aborted, "ops": ops, "logs": logs})
 	}
 	for _, c := range ctxs {
 		if c.ended {
@@ -403,8 +402,6 @@ func runLockSvc(traceRoot string, seq int, nClients int, rng *rand.Rand) (lines 
 		}
 	}
 	lines = append(lines, rec{"e": "end", "extra": extra, "steps": steps, "clients_done": clientsDone})
-	if recMode == "file" {
-		os.RemoveAll(caseDir)
-	}
+	os.RemoveAll(caseDir)
 	return lines
 }
